@@ -787,8 +787,9 @@ func checkForwarder(c *an.Ctx, fn *ssa.Function, ri routerInfo, m svcMethod) str
 
 // ---------------------------------------------------------------- R12.4
 
-func r124(c *an.Ctx) {
-	const rule = "R12.4"
+func r124(c *an.Ctx) { r124as(c, "R12.4") }
+
+func r124as(c *an.Ctx, rule string) {
 	w := lockWorld(c)
 	// callbacks and factories are invoked without the registry lock
 	n := 0
